@@ -307,6 +307,33 @@ SEEDS9 = {
     "C06-14": ("C06", ["C05", "C06", "C01"], "sql: WriteOps without a transaction; Set is a compare-and-swap UPDATE for known logs but INSERT OR REPLACE for a first write", "two overlapping first-use submissions for one log (both read 'not found'); the larger is acknowledged, then overwritten by the smaller"),
 }
 SEEDS2.update(SEEDS9)
+# round 10: twelve fresh agents, the round-9 brief plus "look off the beaten path" (less-travelled files, unusual but legal inputs,
+# sequences of three or more steps) and a list of what NOT to propose again
+SEEDS10 = {
+    "C19-15": ("C19", ["C19", "C15"], "distributor: on 429/503 with a numeric Retry-After header it sleeps that many seconds (time.Sleep, no cap, context ignored) before returning the error", "a distributor answering 429 or 503 with Retry-After: 86400"),
+    "C19-16": ("C19", ["C19", "C10"], "(as C19-13, written independently) bastion handler early exits go through reject(): the unknown-log branch labels the metric with the request's origin line", "Prometheus binding active and an unconfigured origin that is not valid UTF-8"),
+    "C15-13": ("C15", ["C15"], "distributor target built with base.JoinPath(fmt.Sprintf(path, logID, name)) instead of url.PathEscape(name)", "a witness key name containing a percent escape (wit.example%2Fw1) or a dot segment"),
+    "C15-14": ("C15", ["C15"], "distributor treats every 2xx answer as success", "a distributor answering 201, 202, 204 or 206"),
+    "C13-13": ("C13", ["C13"], "(as C13-11, written independently) feeder: causes matching context.Canceled/DeadlineExceeded are wrapped in backoff.Permanent", "a transient failure wrapping a context error while FeedOnce's own context is live"),
+    "C13-14": ("C13", ["C13", "C14"], "omniwitness.witnessAdapter remembers the last cosigned checkpoint per log (set on successful Update, dropped on error) and answers GetLatestCheckpoint from it", "a successful feed through the adapter, then the witness advances by another route (direct Update, second replica, bastion), then the next feed cycle"),
+    "C10-13": ("C10", ["C10", "C12"], "bastion handler derives the log ID from strings.TrimSpace(first line)", "a checkpoint whose origin line is a configured origin plus leading/trailing white space (unknown origin: 404 expected, 403 answered)"),
+    "C10-14": ("C10", ["C10", "C04"], "(as C10-1/-11, written independently) same size + same root + empty proof returns the stored cosigned checkpoint", "an accepted checkpoint, then the same tree with other extension lines"),
+    "C05-13": ("C05", ["C05", "C16"], "sql store: reader.GetLatest served from a sync.Map that a writer fills in Close() with what it committed in Set", "update A (5->8) committed but not yet closed, update B (8->9) runs to completion and publishes 9, then A's Close publishes 8: readers see 9 then 8"),
+    "C05-14": ("C05", ["C05"], "inmemory: the write snapshot is kept per log (base[logID], set at WriteOps) instead of per handle", "three requests on one log: A opens and reads S5; B runs fully and stores S7; C merely opens (re-basing the shared snapshot); A's Set then stores a checkpoint verified against S5"),
+    "C07-13": ("C07", ["C07"], "(as C07-1/-11, written independently) getLatestCheckpoint as Query+rows.Next without rows.Err", "a driver Rows.Next error during the SELECT of an update on a log with a committed checkpoint"),
+    "C07-14": ("C07", ["C07"], "sql WriteOps takes the write lock early with a no-op UPDATE after Begin and returns its error without rolling back", "a driver-level fault on the first statement execution of a write transaction on a one-connection store"),
+    "C16-15": ("C16", ["C16", "C03"], "inmemory store: per-log slot with a writer mutex created in WriteOps; Logs() lists the slots", "a first submission that verifies (so WriteOps is reached) but is refused before Set - e.g. a log-signed checkpoint with 100 signature lines: the log list gains a phantom entry"),
+    "C16-16": ("C16", ["C16"], "(as C16-1/-14, written independently) client reads through io.LimitReader(64 KiB)", "a stored cosigned checkpoint larger than 65536 bytes"),
+    "C20-15": ("C20", ["C20", "C09"], "witness.Update refuses proofs longer than 64 elements with ErrInvalidProof before VerifyConsistency - without the invalid-consistency counter", "a growth-path update with a valid signature whose proof has more than 64 elements"),
+    "C20-16": ("C20", ["C20"], "per-log counters pre-bound inside the sync.Once from the FIRST witness's KnownLogs; unknown IDs fall back to a silent no-op", "a later witness in the same process that knows a log the first witness did not"),
+    "C17-15": ("C17", ["C17", "C12"], "(as C02-2, written independently) AsLogMap caches the whole LogInfo (incl. Origin) per public-key string", "entries sharing one key string (the Rekor shards): the map files the first shard's origin under the others' IDs"),
+    "C17-16": ("C17", ["C17", "C14"], "config.NewLog wraps the verifier in a by-value struct with a func field; Main keys a map by config.Log", "Main with a configuration that has a polled (non-'none') feeder: runtime panic 'hash of unhashable type'"),
+    "C14-15": ("C14", ["C14", "C18"], "client.tilePath rewritten with a strings.Builder that writes the least-significant base-1000 group first (x234/001 for 1234)", "a sumdb log needing a tile with index >= 1000 (size above 256000)"),
+    "C14-16": ("C14", ["C07", "C14"], "(as C07-1/-11/-13, written independently) getLatestCheckpoint as Query+rows.Next without rows.Err", "SQLite storage and a driver error stepping the checkpoint row in the poll in which the log serves a fork"),
+    "C12-15": ("C12", ["C12", "C17"], "an empty Origin defaults to the key name - in AsLogMap before the ID is derived, in config.NewLog after", "a configured entry with an empty or omitted Origin"),
+    "C12-16": ("C12", ["C05", "C12"], "inmemory WriteOps takes its readWriter from a sync.Pool; the object is released at Set and again at Close", "three overlapping updates to three logs: A.WriteOps, A.Set, C.WriteOps, A.Close, D.WriteOps, C.Set - C's checkpoint lands under D's ID"),
+}
+SEEDS2.update(SEEDS10)
 ROUND9 = {'C01', 'C02', 'C03', 'C04', 'C05', 'C07', 'C08', 'C09', 'C10', 'C13', 'C15', 'C18'}
 ROUND5 = {'C01', 'C02', 'C03', 'C04', 'C05', 'C07', 'C08', 'C09', 'C10', 'C13', 'C15', 'C18'}
 SRC = {}
@@ -322,6 +349,9 @@ for _sid in SEEDS2:
         SRC[_sid] = f"/tmp/seed7/{_pid}/_out/{int(_k) - 8}" if _pid in ROUND5 else f"/tmp/seed6/{_pid}/_out/{int(_k) - 8}"
         continue
     SRC[_sid] = f"/tmp/seed2/{_pid}/_out/{int(_k) - 2}" if int(_k) <= 4 else (f"/tmp/seed3/{_pid}/_out/{int(_k) - 4}" if int(_k) <= 6 else (f"/tmp/seed5/{_pid}/_out/{int(_k) - 6}" if _pid in ROUND5 else f"/tmp/seed4/{_pid}/_out/{int(_k) - 6}"))
+for _sid in SEEDS10:
+    _pid, _k = _sid.split("-")
+    SRC[_sid] = f"/tmp/seed10/{_pid}/_out/{1 if int(_k) % 2 == 1 else 2}"
 SEEDS.update(SEEDS2)
 
 
